@@ -325,6 +325,9 @@ func runCase(r *evid.Run, s shape) {
 	sort.Strings(kinds)
 	r.Distinct(fmt.Sprintf("%s prefix=%q failing=%t kinds=%s", s.Path, s.Prefix, anyFailing, strings.Join(kinds, ",")))
 
+	if s.Idx < 3 {
+		r.Sample(map[string]any{"shape": s, "secrets": keys(wantNames)})
+	}
 	// ---- run ----
 	var st *setec.Store
 	var err error
@@ -566,9 +569,6 @@ func runCase(r *evid.Run, s shape) {
 				r.Count("secret_fields_followed_poll", 1)
 			}
 		}
-	}
-	if s.Idx < 3 {
-		r.Sample(map[string]any{"shape": s, "secrets": keys(wantNames)})
 	}
 }
 
